@@ -9,7 +9,8 @@
    [wf_params p] = sanity of the reader's constants (holds for the pinned tree: c15_nonvacuous).
    [frame_ok p m] = m is a valid frame for the oracle (8=<begin>|9=<n>|<n bytes>10=ddd|, n >= 1,
    n <= _max_msg_len - _bg_sz - 7, BodyLength written with at most ValSz-1 = 2047 characters).
-   extract_element is the one repaired by commit d48d8ce (bounded by the callers' arrays);
+   extract_element is the one repaired by commit d48d8ce (bounded by the callers' arrays), the field
+   tests of FIXReader::read those of cb750d0 (whole tag) and b287a2f (first BodyLength character);
    [safe_params p] = the buffers exist and the constants do not wrap. *)
 From Coq Require Import NArith List Bool Arith.
 From F8 Require Import C15.Reader C15.Spec_C15 C15.ReaderProofs.
@@ -50,7 +51,8 @@ Proof. exact valid_streams_ok_lemma. Qed.
 Print Assumptions c15_valid_streams_ok.
 
 (* Corrupted preamble after any valid frames, any chunking — BodyLength made of digits (fewer than
-   2048) whose value, AS THE CODE READS IT (mod 2^32), is zero or above the limit: InvalidBodyLength,
+   2048) whose value, AS THE CODE READS IT (mod 2^32: the one hypothesis that remains from a defect,
+   the 32-bit wrap), is zero or above the limit: InvalidBodyLength,
    exactly the valid frames handed on, oracle satisfied.  (dec w < 2^32 makes "mod" vanish; for
    dec w >= 2^32 the hypothesis can fail: c15_bodylength_wrap_refuted.) *)
 Theorem c15_bad_bodylength_partial : forall p msgs chunks w tail closed,
@@ -62,19 +64,37 @@ Theorem c15_bad_bodylength_partial : forall p msgs chunks w tail closed,
 Proof. exact bad_bodylength_lemma. Qed.
 Print Assumptions c15_bad_bodylength_partial.
 
-(* Non-numeric BodyLength: after "9=", one character c0 (which the code never inspects: see
-   c15_lenient_preamble_refuted), digits, then a byte that is neither digit nor SOH: IllegalMessage. *)
-Theorem c15_nonnumeric_bodylength_partial : forall p msgs chunks c0 ds' c tail closed,
+(* Non-numeric BodyLength: a byte that is neither digit nor SOH after any number (also zero) of
+   digits -- since b287a2f the first character is checked too, so the former hypothesis "the first
+   character is a digit" is gone: IllegalMessage (InvalidBodyLength(0) if the value starts with NUL),
+   or out of bytes; exactly the valid frames are handed on; oracle satisfied. *)
+Theorem c15_nonnumeric_bodylength_partial : forall p msgs chunks ds0 c tail closed,
   wf_params p = true -> Forall (fun m => frame_ok p m = true) msgs ->
-  concat chunks = concat msgs ++ header (p_begin p) ++ [c0] ++ ds' ++ [c] ++ tail ->
-  nosoh c0 = true -> Forall (fun b => isdigit b = true) ds' -> isdigit c = false -> nosoh c = true ->
-  length ds' < p_valcap p ->
-  run p chunks closed = (msgs, EIllegal (cstr (header (p_begin p) ++ [c0] ++ ds'))) /\
+  concat chunks = concat msgs ++ header (p_begin p) ++ ds0 ++ [c] ++ tail ->
+  Forall (fun b => isdigit b = true) ds0 -> isdigit c = false -> nosoh c = true ->
+  length ds0 <= p_valcap p ->
+  (exists e, run p chunks closed = (msgs, e) /\
+             match e with EWait | EPeerReset | EIllegal _ => True | EBadLen n => n = 0%N | _ => False end) /\
   model_ok p chunks closed = true.
-Proof. exact nonnumeric_lemma. Qed.
+Proof. exact nonnumeric2_lemma. Qed.
 Print Assumptions c15_nonnumeric_bodylength_partial.
 
-(* Wrong BeginString: "8=" v SOH with v different from the session's BeginString as a C string,
+(* Wrong tags (since cb750d0 the whole tag is compared): a first tag other than "8" (any digit
+   string shorter than tag[] whose '=' stands within the fixed-size first read), or, after a correct
+   "8=<begin>|", a second tag other than "9" (at most 2 digits: later bytes are covered by the digit
+   loop): IllegalMessage or out of bytes, exactly the valid frames handed on, oracle satisfied. *)
+Theorem c15_bad_tag_partial : forall p msgs chunks t z closed,
+  wf_params p = true -> Forall (fun m => frame_ok p m = true) msgs ->
+  Forall (fun b => isdigit b = true) t -> length t < p_tagcap p ->
+  ((concat chunks = concat msgs ++ t ++ [EQS] ++ z /\ t <> [56%N] /\ length t + 1 <= bg_sz p) \/
+   (concat chunks = concat msgs ++ [56; 61]%N ++ p_begin p ++ [SOH] ++ t ++ [EQS] ++ z /\ t <> [57%N] /\ length t <= 2)) ->
+  (exists e, run p chunks closed = (msgs, e) /\ illegal_or_eos_end e) /\ model_ok p chunks closed = true.
+Proof. exact bad_tag_lemma. Qed.
+Print Assumptions c15_bad_tag_partial.
+
+(* Wrong BeginString: "8=" v SOH with v different from the session's BeginString AS A C STRING (the
+   one hypothesis that remains from a defect: a v equal to it up to a NUL byte is accepted, see
+   c15_beginstring_nul_refuted),
    SOH-free, and short enough for the field to end within the fixed-size first read (|v| <= |begin|+3;
    e.g. FIX.4.4 or FIXT.1.1 against FIX.4.2): nothing but the valid frames is handed on and the
    reader ends with InvalidVersion(v), or IllegalMessage, or is out of bytes. *)
@@ -142,20 +162,29 @@ Theorem c15_bodylength_wrap_refuted :
 Proof. exact bodylength_wrap_refuted_lemma. Qed.
 Print Assumptions c15_bodylength_wrap_refuted.
 
-(* Further violations found while transcribing (not repaired): "9=:" (13th byte never inspected) is BodyLength 10;
-   tags 88 / 93 pass for 8 / 9 (first character only); "FIX.4.2\0" passes for FIX.4.2 (C-string
-   compare).  In each case a frame with a corrupted preamble is handed to the session. *)
-Theorem c15_lenient_preamble_refuted :
-  (run P42 [w_colon] true = ([w_colon], EPeerReset) /\
-   spec_frame fix42 (len_limit P42) (max_width P42) w_colon = FBad /\ model_ok P42 [w_colon] true = false) /\
-  (run P42 [w_tag88] true = ([w_tag88], EPeerReset) /\
-   spec_frame fix42 (len_limit P42) (max_width P42) w_tag88 = FBad /\ model_ok P42 [w_tag88] true = false) /\
-  (run P42 [w_tag93] true = ([w_tag93], EPeerReset) /\
-   spec_frame fix42 (len_limit P42) (max_width P42) w_tag93 = FBad /\ model_ok P42 [w_tag93] true = false) /\
-  (run P42 [w_nul] true = ([w_nul], EPeerReset) /\
-   spec_frame fix42 (len_limit P42) (max_width P42) w_nul = FBad /\ model_ok P42 [w_nul] true = false).
-Proof. exact lenient_preamble_refuted_lemma. Qed.
-Print Assumptions c15_lenient_preamble_refuted.
+(* Repaired by cb750d0 / b287a2f: with the ORIGINAL field tests "9=:" was BodyLength 10 and tags
+   88 / 93 passed for 8 / 9 (a frame with a corrupted preamble was handed on); with the repaired
+   tests the same streams are refused, nothing is handed on, the oracle holds. *)
+Theorem c15_lenient_orig_refuted :
+  (run_orig P42 [w_colon] true = ([w_colon], EPeerReset) /\
+   spec_frame fix42 (len_limit P42) (max_width P42) w_colon = FBad /\
+   fst (run P42 [w_colon] true) = [] /\ model_ok P42 [w_colon] true = true) /\
+  (run_orig P42 [w_tag88] true = ([w_tag88], EPeerReset) /\
+   spec_frame fix42 (len_limit P42) (max_width P42) w_tag88 = FBad /\
+   fst (run P42 [w_tag88] true) = [] /\ model_ok P42 [w_tag88] true = true) /\
+  (run_orig P42 [w_tag93] true = ([w_tag93], EPeerReset) /\
+   spec_frame fix42 (len_limit P42) (max_width P42) w_tag93 = FBad /\
+   fst (run P42 [w_tag93] true) = [] /\ model_ok P42 [w_tag93] true = true).
+Proof. exact lenient_orig_refuted_lemma. Qed.
+Print Assumptions c15_lenient_orig_refuted.
+
+(* Not repaired: "FIX.4.2\0" passes for FIX.4.2 (C-string compare) and the frame with the NUL is
+   handed to the session. *)
+Theorem c15_beginstring_nul_refuted :
+  run P42 [w_nul] true = ([w_nul], EPeerReset) /\
+  spec_frame fix42 (len_limit P42) (max_width P42) w_nul = FBad /\ model_ok P42 [w_nul] true = false.
+Proof. exact beginstring_nul_refuted_lemma. Qed.
+Print Assumptions c15_beginstring_nul_refuted.
 
 (* Non-vacuity: the pinned configuration is well-formed; two concrete frames (one with leading
    zeros in BodyLength) satisfy frame_ok, are delivered in 1-byte chunks and come out exactly; the
